@@ -113,6 +113,7 @@ func (in *Interp) callBuiltin(name string, args []Value) Value {
 			in.tag("undecided")
 			return NilV{}
 		}
+		in.cost(len(items) * len(items) / 4)
 		// object.Sort: stable sort by Compare; any incomparable pair that the sort happens to visit is an
 		// error. Which pairs a sort visits is an implementation detail, so a list with an incomparable
 		// pair anywhere is "error" only if all pairs are incomparable-free … keep it decidable:
@@ -374,6 +375,18 @@ func (in *Interp) callMethod(m *BoundMethod, args []Value) Value {
 				if _, isErr := out.(*ErrV); isErr {
 					in.tag("undecided")
 					return NilV{}
+				}
+				// a callback that changes the list it is being applied to: what the builtin then sees
+				// depends on slice capacities, which is not pinned
+				if len(recv.Items) != len(items) {
+					in.tag("undecided")
+					return NilV{}
+				}
+				for k := range items {
+					if recv.Items[k] != items[k] {
+						in.tag("undecided")
+						return NilV{}
+					}
 				}
 				switch m.Name {
 				case "map":
